@@ -326,6 +326,11 @@ REGISTRY["C13"]["teq"].append({"engine": "conc", "quick": {"n": 24, "mode": "mem
 REGISTRY["C12"]["teq"].append(seq({"only": "limited", "autocheck": 1, "n": 6, "ops": 80, "seedoff": 212}, {"only": "limited", "autocheck": 1, "seedoff": 212}))
 REGISTRY["C13"]["teq"].append(seq({"only": "limited", "n": 10, "ops": 80, "seedoff": 113}, {"only": "limited", "seedoff": 113}))
 REGISTRY["C11"]["teq"].append(_f1(11))
+for _pid in ("C02", "C09"):
+    REGISTRY[_pid]["teq"].append({"engine": "gate", "quick": {"n": 8000, "seedoff": 60}, "thorough": {"n": 300000, "seedoff": 60},
+                                  "oracle": False, "mismatch_is_failure": True, "timeout": 3400,
+                                  "nontrivial": lambda case, res: case.count(" ") >= 4, "distinct_key": lambda case, res: case,
+                                  "what": "T-eq for Model.Gate (hook H12): Record::successor_is_durable_or_deleted -- the gate consulted before a superseded generation's extent is retired -- on synthetic forward successor chains of 1-9 generations with every mix of durable, live, deleted and superseded nodes and of memo bits; the answer and the memo bits afterwards must equal Model.Gate.gate"})
 REGISTRY["C02"]["teq"].append({"engine": "failpath", "quick": {"n": 4, "burst_every": 1, "seedoff": 402}, "thorough": {"n": 40, "burst_every": 1, "seedoff": 402},
                                 "oracle": True, "mismatch_is_failure": False, "timeout": 3400,
                                 "nontrivial": lambda case, res: "failpath-burst" in case, "distinct_key": lambda case, res: case,
